@@ -195,6 +195,13 @@ fn generate(rng: &mut Rng) -> C15Sc {
         if rng.chance(1, 6) {
             spec.host = (*rng.pick(&["mc.example.org\0203.0.113.77\0069a79f444e94726a5befca90e38aaf5", "lobby\02001:db8::77\0x", "h\010.0.0.1\0"])).to_string();
         }
+        // a returning player: transfer intent and a genuine cookie issued to the same host on an earlier connection (another port)
+        if login && valid && rng.chance(1, 2) {
+            spec.intent = 3;
+            let id = Identity { name: format!("Returning{i}"), uuid: 0x7e70_0000_0000_0000_0000_0000_0000_0000u128 + i as u128, props: vec![] };
+            let earlier = SocketAddr::new(effective.ip(), 60_000 + i as u16);
+            spec.auth_cookie = Some(signed_cookie(b"proxy-secret", &cookie_json(crate::conn::Wall::default().base_s - 30, &earlier.to_string(), &id, None)));
+        }
         // header and first frames may reach the server in one read
         spec.coalesce = rng.chance(1, 2);
         // a header may also trickle in: the connection is then admitted (and charged) when the header is
@@ -423,7 +430,7 @@ impl Check for C15 {
                     want_valid == m.valid && if k == "header_never_completes" { c.spec.mute_after == Some(0) && c.spec.close_after.is_none() && c.spec.close_on_end_ns.is_none() } else { (k == "absent") == c.spec.preamble.is_none() }
                 }
             };
-            if !consistent || !c.spec.mutations.is_empty() || !c.wplan.is_empty() || !matches!(c.spec.intent, 1 | 2) {
+            if !consistent || !c.spec.mutations.is_empty() || !c.wplan.is_empty() || !matches!(c.spec.intent, 1..=3) {
                 return RunReport::default();
             }
             // cuts only inside a PROXY header, with a delay that keeps admissions at distinct instants
